@@ -9,8 +9,8 @@ RULE = ("E-sched: libsodium compiled with -fsanitize=thread instrumentation but 
         "over 'which enabled thread runs next' with replay prefixes, default = keep running. Harness A: N threads each r = sodium_init(); then "
         "10 observations (feature flags + GCM availability, RNG name, guarded allocation incl. canary, generichash, onetimeauth, "
         "chacha20, salsa20, scalarmult_base, aegis128l, randombytes_buf): N=2 with <= 2 preemptions and N=3 with <= 1 (thorough: N=2 "
-        "<= 3, N=3 <= 2); invariants: every return in {0,1}, exactly one 0, every observation equals the sequentially initialised "
-        "library's, no abort/assert, no deadlock, no horizon. Harness B: ordered pairs of 65 operations (every API family in both directions: encrypt and decrypt/open/verify, "
+        "<= 3, N=3 <= 2, N=4 <= 1); invariants: every return in {0,1}, exactly one 0, every observation equals the sequentially initialised "
+        "library's, no abort/assert, no deadlock, no horizon. Harness B: ordered pairs of 83 operations (every API family in both directions: encrypt and decrypt/open/verify, "
         "multipart, codecs, padding, curve/scalar/hash-to-curve, password hashing and strings, default RNG, guarded allocation, mprotect, "
         "mlock, set_misuse_handler, sodium_init again) in two threads after initialisation: quick = 'core' pairs (every operation with "
         "itself, with two neighbours and with allocation / RNG / init / misuse-handler in both orders, ~780 pairs) with <= 1 preemption; "
@@ -48,7 +48,7 @@ def main(tier):
     e1, e2 = exes()
     res = common.Result()
     runs = [["init", "2", "2"], ["init", "3", "1"], ["pairs", "1", "core"]] if tier == "quick" else \
-           [["init", "2", "3"], ["init", "3", "2"], ["pairs", "1", "all"], ["pairs", "2", "core"]]
+           [["init", "2", "3"], ["init", "3", "2"], ["init", "4", "1"], ["pairs", "1", "all"], ["pairs", "2", "core"]]
     bounds = []
     for a in runs:
         r = common.run([e1] + a, label="c19-" + "-".join(a), timeout=6 * 3600)
